@@ -262,6 +262,26 @@ func watchScenarios(id string, thorough bool) []watchScenario {
 				})
 			}
 		})
+	case "C01":
+		shapes(func(nin, nout int, filled bool, tag string) {
+			add("serialisation and parsing "+tag, func() {
+				tx := watchTx(nin, nout, filled)
+				watchAll(tx, nil, nil, nil)
+				b, e := tx.Bytes(), tx.ExtendedBytes()
+				_, _ = tx.TxID(), tx.TxIDBytes()
+				_ = tx.Size()
+				_ = tx.Clone()
+				for _, in := range tx.Inputs {
+					_, _ = in.Bytes(false), in.Bytes(true)
+					_ = in.PreviousTxIDStr()
+				}
+				for _, o := range tx.Outputs {
+					_, _ = o.Bytes(), o.BytesForSigHash()
+				}
+				_, _ = bt.NewTxFromBytes(b)
+				_, _ = bt.NewTxFromBytes(e)
+			})
+		})
 	case "C16":
 		shapes(func(nin, nout int, filled bool, tag string) {
 			add("JSON marshalling "+tag, func() {
